@@ -248,6 +248,92 @@ def h_dirs_intV(ctx, D, P):
     ctx.eq(plain(Vb), V.astype(float), 'round trip V')
 
 
+def _cvars(ctx, name, shape):
+    A = np.empty(shape, dtype=object)
+    for idx in np.ndindex(*shape):
+        A[idx] = ctx.cvar('%s%s' % (name, list(idx)))
+    return A
+
+
+def h_complex(ctx, what, D, P):
+    """the converters lose nothing for complex polynomials either (imaginary parts kept)"""
+    algopy = symx.load_algopy()
+    from algopy import utils
+    UTPM = algopy.UTPM
+    cu = lambda X: mk_utpm(ctx, algopy, X, complex) if ctx.mode == 'sym' else algopy.UTPM(np.array(X.tolist(), dtype=complex).reshape(X.shape))
+    ca = lambda A: mk_array(ctx, A, complex) if ctx.mode == 'sym' else np.array(A.tolist(), dtype=complex).reshape(A.shape)
+    if what == 'vecsym':
+        W = _cvars(ctx, 'w', (D, P, 3))
+        A = plain(algopy.vecsym(cu(W)).data)
+        ref = np.empty((D, P, 2, 2), dtype=object)
+        ref[:, :, 0, 0], ref[:, :, 0, 1], ref[:, :, 1, 0], ref[:, :, 1, 1] = W[:, :, 0], W[:, :, 1], W[:, :, 1], W[:, :, 2]
+        ctx.eq(A, ref, 'vecsym of a complex polynomial')
+        ctx.eq(plain(algopy.symvec(algopy.vecsym(cu(W))).data), W, 'symvec(vecsym(v)) complex')
+    elif what == 'base_and_dirs':
+        x = _cvars(ctx, 'x', (2,))
+        V = _cvars(ctx, 'V', (2, P, D - 1))
+        u = utils.base_and_dirs2utpm(ca(x), ca(V))
+        U = plain(u.data)
+        for p in range(P):
+            ctx.eq(U[0, p], x, 'base point dir %d' % p)
+            for d in range(1, D):
+                ctx.eq(U[d, p], V[:, p, d - 1], 'direction %d order %d' % (p, d))
+        xb, Vb = utils.utpm2base_and_dirs(u)
+        ctx.eq(plain(xb), x, 'utpm2base_and_dirs x')
+        ctx.eq(plain(Vb), V, 'utpm2base_and_dirs V')
+    elif what == 'as_utpm':
+        els = [[_cvars(ctx, 'e%d%d' % (i, j), (D, P)) for j in range(2)] for i in range(2)]
+        objs = np.empty((2, 2), dtype=object)
+        for i in range(2):
+            for j in range(2):
+                objs[i, j] = cu(els[i][j])
+        Y = plain(UTPM.as_utpm(objs).data)
+        for i in range(2):
+            for j in range(2):
+                ctx.eq(Y[:, :, i, j], els[i][j], 'as_utpm[%d,%d] complex' % (i, j))
+    elif what == 'combine_blocks':
+        b = [[_cvars(ctx, 'b00', (D, P, 1, 1)), _cvars(ctx, 'b01', (D, P, 1, 2))],
+             [_cvars(ctx, 'b10', (D, P, 1, 1)), _cvars(ctx, 'b11', (D, P, 1, 2))]]
+        C = plain(UTPM.combine_blocks([[cu(x) for x in row] for row in b]).data)
+        ctx.eq(C[:, :, :1, :1], b[0][0], 'block00 complex')
+        ctx.eq(C[:, :, :1, 1:], b[0][1], 'block01 complex')
+        ctx.eq(C[:, :, 1:, :1], b[1][0], 'block10 complex')
+        ctx.eq(C[:, :, 1:, 1:], b[1][1], 'block11 complex')
+    else:
+        raise KeyError(what)
+
+
+def h_misc_containers(ctx, D, P):
+    """nested lists through ndarray2utpm; blocks of different degree in combine_blocks"""
+    algopy = symx.load_algopy()
+    from algopy import utils
+    UTPM = algopy.UTPM
+    els = [[_vars(ctx, 'n%d%d' % (i, j), (D, P)) for j in range(3)] for i in range(2)]
+    nested = [[mk_utpm(ctx, algopy, els[i][j]) for j in range(3)] for i in range(2)]
+    try:
+        z = utils.ndarray2utpm(nested)
+        Z = plain(z.data)
+        ctx.fact(Z.shape == (D, P, 2, 3), 'ndarray2utpm(nested list) shape %s' % (Z.shape,))
+        if Z.shape == (D, P, 2, 3):
+            for i in range(2):
+                for j in range(3):
+                    ctx.eq(Z[:, :, i, j], els[i][j], 'ndarray2utpm[%d][%d]' % (i, j))
+    except Exception as e:
+        ctx.fact(False, 'ndarray2utpm(nested list) raised %s: %s' % (type(e).__name__, str(e)[:80]))
+    # a constant (degree-zero) block next to blocks of degree D - 1: zero higher coefficients
+    if D > 1:
+        b00 = _vars(ctx, 'b00', (D, P, 1, 1))
+        c01 = _vars(ctx, 'c01', (1, 1, 1, 2))
+        b10 = _vars(ctx, 'b10', (D, P, 1, 1))
+        b11 = _vars(ctx, 'b11', (D, P, 1, 2))
+        C = plain(UTPM.combine_blocks([[mk_utpm(ctx, algopy, b00), mk_utpm(ctx, algopy, c01)],
+                                       [mk_utpm(ctx, algopy, b10), mk_utpm(ctx, algopy, b11)]]).data)
+        for p in range(P):
+            ctx.eq(C[0, p, :1, 1:], c01[0, 0], 'constant block, coefficient 0, direction %d' % p)
+            for d in range(1, D):
+                ctx.eq(C[d, p, :1, 1:], np.zeros((1, 2)), 'constant block, coefficient %d is zero, direction %d' % (d, p))
+
+
 def h_shift(ctx, D, P, s):
     algopy = symx.load_algopy()
     X = _vars(ctx, 'x', (D, P, 2))
@@ -262,6 +348,15 @@ def h_shift(ctx, D, P, s):
         kept = 0 <= d + s < D
         ctx.eq(back[d], X[d] if kept else np.zeros((P, 2)), 'shift(%d).shift(%d)[%d]' % (s, -s, d))
     ctx.eq(plain(x.data), X, 'shift leaves its operand alone')
+    # result buffer passed as out= that already holds other values / is the operand itself
+    W = _vars(ctx, 'w', (D, P, 2))
+    buf = mk_utpm(ctx, algopy, W)
+    r = x.shift(s, out=buf)
+    ctx.fact(r is buf, 'shift returns its out= buffer')
+    ctx.eq(plain(buf.data), Y, 'shift(%d, out=<used buffer>) == shift(%d)' % (s, s))
+    x2 = mk_utpm(ctx, algopy, X)
+    x2.shift(s, out=x2)
+    ctx.eq(plain(x2.data), Y, 'x.shift(%d, out=x) == x.shift(%d)' % (s, s))
     # coeff_op: extract coefficient slices into a new polynomial
     if D >= 2:
         z = x.coeff_op((slice(1, None), slice(None), slice(0, 1)), (D - 1, P))
@@ -391,12 +486,15 @@ def units(tier, seed):
             add('symvec/ndarray/n%d,%s' % (n, uplo), 'h_symvec', n=n, uplo=uplo, kind='ndarray')
             add('symvec/utpm/n%d,%s' % (n, uplo), 'h_symvec', n=n, uplo=uplo, kind='utpm', D=2, P=2)
     add('containers/D2,P2', 'h_containers', D=2, P=2)
+    add('containers/nested lists, blocks of different degree/D3,P2', 'h_misc_containers', D=3, P=2)
+    for what in ('vecsym', 'base_and_dirs', 'as_utpm', 'combine_blocks'):
+        add('complex polynomials/%s/D2,P2' % what, 'h_complex', what=what, D=2, P=2)
     add('containers/combine_blocks with a P=1 block/D2,P3', 'h_combine_mixed', D=2, P=3)
     add('dirs/integer-typed directions, non-integer base point/D3,P2', 'h_dirs_intV', D=3, P=2)
     add('containers/permuted object arrays/D2,P2', 'h_as_utpm_views', D=2, P=2)
     add('pivots/UTPM.piv2mat+piv2det/n2,P2', 'h_pivots_utpm', opts={'path_budget': 200}, n=2, P=2)
     add('pivots/UTPM.piv2mat+piv2det/n3,P2', 'h_pivots_utpm', opts={'path_budget': 400, 'validate_paths': 6}, n=3, P=2)
-    for s in (1, 2, -1):
+    for s in (1, 2, -1, 0, -3):
         add('shift(%d)/D4,P2' % s, 'h_shift', D=4, P=2, s=s)
     for n in ((2, 3) if tier == 'quick' else (2, 3, 4)):
         add('pivots/lu-model/n%d' % n, 'h_pivots', opts={'path_budget': 200, 'validate_paths': 30}, n=n)
